@@ -1,6 +1,98 @@
-//! Property C17 — correspondence / expectation run (see DESIGN.md §5, C17).
+//! Property C17 — out-of-domain requests are refused; in-domain requests never abort.
+use crate::common::*;
+use crate::generic;
+use crate::kzg::*;
+use crate::wire::{self, Req};
 use crate::Ctx;
+use ark_bls12_381::Fr;
+use ark_ff::UniformRand;
+use ark_poly::DenseUVPolynomial;
+use ark_poly_commit::PCCommitmentState;
 
 pub fn run(ctx: &mut Ctx) {
-    let _ = ctx;
+    // plain KZG10, model-backed: boundary around the key size and the hiding bound
+    let n = ctx.n(40, 400);
+    for i in 0..n {
+        let id = format!("C17/kzg10/{}", i);
+        if !ctx.selected(&id) {
+            continue;
+        }
+        let mut rng = rng_for(ctx.seed, "C17/kzg10", i as u64);
+        let max_degree = range(&mut rng, 2, 16);
+        let trap = Trap::random(&mut rng, max_degree);
+        let pp = trap.params(false);
+        let supported = range(&mut rng, 1, max_degree);
+        let (powers, _vk) = trim(&pp, supported);
+        let pg = trap.pg()[..=supported].to_vec();
+        let pgg = trap.pgg()[..=supported].to_vec();
+        // degree in {0, supported-1, supported, supported+1, supported+3}
+        let degs = [0usize, supported.saturating_sub(1), supported, supported + 1, supported + 3];
+        let deg = degs[range(&mut rng, 0, degs.len() - 1)];
+        let p = UniPoly::rand(deg, &mut rng);
+        // hiding in {None, 0, supported-1, supported, supported+1}
+        let hbs = [None, Some(0usize), Some(supported.saturating_sub(1)), Some(supported), Some(supported + 1)];
+        let hb = hbs[range(&mut rng, 0, hbs.len() - 1)];
+        let with_rng = range(&mut rng, 0, 3) != 0;
+        let mut replay = rng.clone();
+        let draws: Vec<Fr> = (0..supported + 8).map(|_| Fr::rand(&mut replay)).collect();
+        let mut r = rng.clone();
+        let res = guarded(|| {
+            if with_rng {
+                Kzg::commit(&powers, &p, hb, Some(&mut r))
+            } else {
+                Kzg::commit(&powers, &p, hb, None)
+            }
+        });
+        let in_domain = deg + 1 <= supported + 1 && match hb {
+            None => true,
+            Some(h) => with_rng && h + 1 < supported + 1,
+        };
+        let outcome = match &res {
+            Ok(Ok((c, rand))) => ImplOutcome::Ok(vec![
+                ("c".into(), Expect::G1(c.0)),
+                ("blind".into(), Expect::Fes(rand.blinding_polynomial.coeffs.clone())),
+            ]),
+            Ok(Err(e)) => ImplOutcome::Refuse(err_kind(e)),
+            Err(a) => ImplOutcome::Refuse(a.clone()),
+        };
+        let answered = matches!(res, Ok(Ok(_)));
+        if answered != in_domain {
+            ctx.rep.expect_fail(&id, if answered { "kzg10/out-of-domain-answered" } else { "kzg10/in-domain-refused" },
+                &format!("commit: in_domain={} but answered={}", in_domain, answered),
+                format!("# scheme: kzg10\n# case {}\n# supported={} deg={} hb={:?} rng={}\n", id, supported, deg, hb, with_rng));
+        }
+        let req = Req::new("kzg.commit").arg("pg", wire::fes(&pg)).arg("pgg", wire::fes(&pgg))
+            .arg("p", wire::fes(&p.coeffs)).arg("hb", wire::opt_nat(hb)).arg("rng", wire::boolean(with_rng))
+            .arg("draws", wire::fes(&draws));
+        ctx.ses.ask(&id, req, outcome);
+        // open beyond the key
+        let z = Fr::rand(&mut rng);
+        let ro = guarded(|| Kzg::open(&powers, &p, z, &ark_poly_commit::kzg10::Randomness::<Fr, UniPoly>::empty()));
+        let o_answered = matches!(ro, Ok(Ok(_)));
+        if o_answered != (deg <= supported) {
+            ctx.rep.expect_fail(&id, "kzg10/open-domain", &format!("open: deg={} supported={} answered={}", deg, supported, o_answered),
+                format!("# scheme: kzg10\n# case {}\n", id));
+        }
+        let req = Req::new("kzg.open").arg("pg", wire::fes(&pg)).arg("pgg", wire::fes(&pgg))
+            .arg("p", wire::fes(&p.coeffs)).arg("z", wire::fe(&z)).arg("blind", wire::fes::<Fr>(&[]));
+        ctx.ses.ask(&id, req, match ro {
+            Ok(Ok(pr)) => ImplOutcome::Ok(vec![("w".into(), Expect::G1(pr.w)), ("rv".into(), Expect::OptFe(pr.random_v))]),
+            Ok(Err(e)) => ImplOutcome::Refuse(err_kind(&e)),
+            Err(a) => ImplOutcome::Refuse(a),
+        });
+        ctx.rep.count(&format!("kzg10/in-domain-{}", in_domain));
+        ctx.rep.case(&format!("kzg10 s={} deg={} hb={:?} rng={} -> answered={}", supported, deg, hb, with_rng, answered),
+            Some(format!("kzg10/{}/{:?}/{}", deg as i64 - supported as i64, hb.map(|h| h as i64 - supported as i64), with_rng)));
+    }
+    // setup(0)
+    {
+        let mut rng = rng_for(ctx.seed, "C17/kzg10-setup", 0);
+        let r = guarded(|| Kzg::setup(0, false, &mut rng));
+        if matches!(r, Ok(Ok(_))) {
+            ctx.rep.expect_fail("C17/kzg10/setup0", "kzg10/out-of-domain-answered/setup-degree-0", "setup(0) returned parameters", "# scheme: kzg10 setup(0)\n".into());
+        }
+        ctx.rep.case("kzg10 setup(0)", Some("kzg10/setup0".into()));
+    }
+    generic::c17_all(ctx);
+    ctx.flush_model("C17");
 }
